@@ -125,7 +125,11 @@ class CallbackHandler(object):
 
         res = True
 
-        for c in self.get_callbacks(key):
+        # Iterate on a snapshot: a callback may remove itself or others
+        for c in list(self.get_callbacks(key)):
+            if c not in self.get_callbacks(key):
+                # Removed in the meantime: must not be called anymore
+                continue
             res = c(*args)
             if res is not True:
                 yield res
